@@ -344,7 +344,8 @@ def judge_endpoint(ctx, key, W, who, prog, task, conn, sock, link,
     # closed, not resumable after a mid-handshake failure
     if phase == "handshake":
         s = conn.session
-        if s is not None and s.resumable and not prog.hs_done:
+        if s is not None and (s.resumable or s.valid()) and \
+                not prog.hs_done:
             # a session object may pre-exist (resumption offer): it is the
             # caller's old session and stays valid only if this handshake
             # never got as far as using it
@@ -397,6 +398,35 @@ def run_fault(ctx, cid, P):
                         not (b"c2" * 20).startswith(op[2]):
                     ctx.violation(dict(key, clause="corrupt_data"), W,
                                   "read returned bytes never written")
+    # the peer closed orderly and everything it sent was received; only
+    # our *reply* to its close_notify could not be written: that read is
+    # still the end of an orderly close (empty result, session resumable),
+    # whatever errno the reply failed with
+    for prog, other, who, task, conn in ((pc, ps, "client", tc, p.c),
+                                         (ps, pc, "server", ts, p.s)):
+        if not prog.ops or prog.ops[-1][0] not in ("read_eof", "read",
+                                                   "readmin"):
+            continue
+        mine = [x for x in specs if x[0] == who]
+        if not mine or any(x[1] != "send" for x in mine):
+            continue
+        if not any(o[0] == "close" for o in other.ops):
+            continue
+        if task.status == "exc" and isinstance(task.exc, (socket.error,
+                                                          OSError)) and \
+                not isinstance(task.exc, E.BaseTLSException) and \
+                prog.ops[-1][1] == "running":
+            ctx.violation(dict(key, clause="orderly_close_reported_as_failure",
+                               who=who, errno=getattr(task.exc, "errno",
+                                                      None)), W,
+                          "%s: the peer's close_notify arrived, the reply "
+                          "failed with %r and the read raised instead of "
+                          "returning empty" % (who, task.exc))
+        elif task.status == "done":
+            ctx.count("close_reply_fault_swallowed")
+            if conn.session is not None and not conn.session.resumable:
+                ctx.violation(dict(key, clause="not_resumable_after_close"
+                                   "_notify", who=who), W, "")
     # truncation must never look like end of data: a read that returns
     # fewer bytes than asked for (or nothing) without raising is legitimate
     # only after the peer's close_notify, i.e. after the peer began close()
@@ -468,7 +498,8 @@ def run_alertpipe(ctx, cid, P):
         surfaced = isinstance(e, E.TLSRemoteAlert) and e.description == 40
         if surfaced:
             ctx.count("pending_alert_surfaced")
-            if conn.session is not None and conn.session.resumable:
+            if conn.session is not None and (conn.session.resumable or
+                                             conn.session.valid()):
                 ctx.violation(dict(key, clause="resumable_after_fatal_alert"),
                               W, "")
         elif idx == 0 and side == "client":
@@ -582,9 +613,10 @@ def run_alert(ctx, cid, P):
                                got=str(outcome(vt))), W,
                           "peer's fatal alert %d surfaced as %r / %r" % (
                               desc, vt.status, vt.exc))
-        elif sess is not None and sess.resumable:
+        elif sess is not None and (sess.resumable or sess.valid()):
             ctx.violation(dict(key, clause="resumable_after_fatal_alert"), W,
-                          "")
+                          "session.resumable=%r valid()=%r" % (
+                              sess.resumable, sess.valid()))
         else:
             ctx.count("fatal_surfaced")
     elif desc == 0:
